@@ -71,7 +71,7 @@ func (r Int8) Max(a, b ConstScalar) Scalar {
 func (c Int8) Abs(a ConstScalar) Scalar {
   switch a.Sign() {
   case -1: c.Neg(a)
-  case 0: c.Reset()
+  case 0: c.SetFloat64(math.Abs(a.GetFloat64()))
   case 1: c.Set(a)
   }
   return c
